@@ -321,6 +321,21 @@ theorem C14_dropping_complexPart_captures (ns : List Node) (k r : Int) (nm : Str
   have hf : (find ns r).isSome = true := find_isSome.mpr h
   simp [resolveValT, resolvePartsT, resolveValsT, thr, allOn, hf]
 
+/-- the reader exp2cxx emits for a select with an aggregate member (`ENT_LIST((#r))`) not handing the increment to the aggregate -/
+theorem C14_dropping_genSelectAggr_captures (ns : List Node) (k r : Int) (n : String) (h : r ∈ ids ns) :
+    resolveValT { allOn with genSelectAggr := false } ns .top k (.via .select (.typed n (.aggr (.cons (.ref r) .nil)))) =
+      (.via .select (.typed n (.aggr (.cons (.ref r) .nil))), true) := by
+  have hf : (find ns r).isSome = true := find_isSome.mpr h
+  simp [resolveValT, resolvePartsT, resolveValsT, thr, allOn, hf]
+
+/-- the emitted reader of a select whose member is itself a select not handing the increment to that member -/
+theorem C14_dropping_genSelectNested_captures (ns : List Node) (k r : Int) (n : String) (h : r ∈ ids ns) :
+    resolveValT { allOn with genSelectNested := false } ns .top k
+        (.via .select (.typed n (.via .nested (.aggr (.cons (.ref r) .nil))))) =
+      (.via .select (.typed n (.via .nested (.aggr (.cons (.ref r) .nil)))), true) := by
+  have hf : (find ns r).isSome = true := find_isSome.mpr h
+  simp [resolveValT, resolvePartsT, resolveValsT, thr, allOn, hf]
+
 /-- `ReadEntityRef` not adding the increment: every reference everywhere is captured -/
 theorem C14_dropping_refAdd_captures (ns : List Node) (c : Ctx) (k r : Int) (h : r ∈ ids ns) :
     resolveValT { allOn with refAdd := false } ns c k (.ref r) = (.ref r, true) := by
